@@ -15,7 +15,7 @@ ASSUMPTIONS = [
 
 
 def plan(tier, seed):
-    sp = progwork.shards(tier, 2000, 40000)
+    sp = progwork.shards(tier, 2000, 120000)
     from hv import realwork
     return sp + realwork.shards('C03', tier)
 
